@@ -4,6 +4,7 @@ import (
 	"fmt"
 	"runtime"
 	"strings"
+	"sync"
 	"time"
 
 	"github.com/sergeymakinen/go-crypt/hash/parse"
@@ -212,6 +213,92 @@ func corrC11(out string, seed uint64, tier string, replay string) *report {
 			s = string(r.bytes(r.intn(4096)))
 		}
 		check(s, len(s) <= 300)
+	}
+	// hash-shaped inputs: the reference hashes of the ten schemes, every truncation, every single-symbol edit with a
+	// delimiter, underscore or letter; and delimiter-free texts of every length 0..80 with and without a leading '_'
+	// (the DES-based hashes are exactly such texts)
+	for _, h := range referenceHashes {
+		check(h, true)
+		for i := 0; i <= len(h); i++ {
+			check(h[:i], i%4 == 0)
+			for _, c := range "$,_=a" {
+				check(h[:i]+string(c)+h[i:], false)
+				if i < len(h) {
+					check(h[:i]+string(c)+h[i+1:], false)
+				}
+			}
+		}
+	}
+	for n := 0; n <= 80; n++ {
+		body := r.str(n, "abcXYZ019./")
+		check(body, true)
+		check("_"+body, true)
+		if n > 0 {
+			check(body[:n-1]+"_", false)
+			check(body[:n/2]+"_"+body[n/2:], false)
+		}
+	}
+	// the same calls made concurrently: every call still returns the tree (or error) it returns alone
+	{
+		var pool []string
+		allStrings("$,_=a", 4, func(s string) { pool = append(pool, s) })
+		pool = append(pool, referenceHashes...)
+		for i := 0; i < 60; i++ {
+			pool = append(pool, "$"+r.str(1+r.intn(5), "ab2")+string("$,"[r.intn(2)])+r.str(r.intn(120), "$,=abcdefgh0123456789"))
+		}
+		alone := make([]string, len(pool))
+		for i, s := range pool {
+			t, err := parse.Parse(s)
+			alone[i] = coqPres(t, err)
+		}
+		workers, each := 8, 3000
+		if tier == "thorough" {
+			workers, each = 16, 20000
+		}
+		type bad struct{ s, got, want string }
+		var mu sync.Mutex
+		var bads []bad
+		var wg sync.WaitGroup
+		for w := 0; w < workers; w++ {
+			wg.Add(1)
+			wr := newRng(seed*977 + uint64(w))
+			go func() {
+				defer wg.Done()
+				for k := 0; k < each; k++ {
+					i := wr.intn(len(pool))
+					got := func() (d string) {
+						defer func() {
+							if x := recover(); x != nil {
+								d = fmt.Sprint("panic: ", x)
+							}
+						}()
+						t, err := parse.Parse(pool[i])
+						return coqPres(t, err)
+					}()
+					if got != alone[i] {
+						mu.Lock()
+						if len(bads) < 5 {
+							bads = append(bads, bad{pool[i], got, alone[i]})
+						}
+						mu.Unlock()
+					}
+				}
+			}()
+		}
+		done := make(chan struct{})
+		go func() { wg.Wait(); close(done) }()
+		select {
+		case <-done:
+		case <-time.After(120 * time.Second):
+			rep.fail("(concurrent batch)", "all concurrent Parse calls return", "some call did not return within 120 s", "parser hangs under concurrent use")
+		}
+		mu.Lock()
+		for _, b := range bads {
+			rep.fail(map[string]interface{}{"input": b.s, "concurrency": fmt.Sprintf("%d goroutines parsing strings of a pool of %d", workers, len(pool))},
+				b.want, b.got, "a Parse call running concurrently with others returns a different tree than the same call alone")
+		}
+		mu.Unlock()
+		rep.Distribution["concurrent_parses"] = workers * each
 	}
 	// goroutine leak: the lexer goroutine must have exited after every call
 	leak := -1
